@@ -25,9 +25,9 @@ func init() {
 
 type nullWriter struct{ h http.Header }
 
-func (w *nullWriter) Header() http.Header       { return w.h }
+func (w *nullWriter) Header() http.Header         { return w.h }
 func (w *nullWriter) Write(b []byte) (int, error) { return len(b), nil }
-func (w *nullWriter) WriteHeader(int)           {}
+func (w *nullWriter) WriteHeader(int)             {}
 
 func runAlloc(fields []string) string {
 	if len(fields) < 2 {
